@@ -11,7 +11,7 @@ import (
 )
 
 var c06Kinds = []string{"used-field-type", "unused", "used-annotation", "used-new", "used-static-receiver", "used-catch", "used-generic-arg", "wildcard", "static-used", "static-unused", "unused-second", "used-throws",
-	"used-static-field", "used-method-reference", "used-nested-receiver", "used-class-literal", "used-cast", "used-instanceof", "used-extends", "used-implements", "used-parameter-type", "used-return-type", "used-local-type", "used-array-type", "used-static-constant-in-expression", "used-annotation-argument"}
+	"used-static-field", "used-method-reference", "used-nested-receiver", "used-class-literal", "used-cast", "used-instanceof", "used-extends", "used-implements", "used-parameter-type", "used-return-type", "used-local-type", "used-array-type", "used-static-constant-in-expression", "used-annotation-argument", "wildcard-then-used-single-of-same-package", "used-single-then-wildcard-of-same-package", "unused-single-after-wildcard-of-same-package"}
 
 type c06File struct {
 	name     string
@@ -121,6 +121,17 @@ func c06Build(c *engine.C, idx int) c06File {
 		case "used-annotation-argument":
 			add("import lib.Mode" + u + ";")
 			body = append(body, "    @SuppressWarnings(Mode"+u+".NAME)\n    void annotated"+u+"() {\n    }")
+		case "wildcard-then-used-single-of-same-package":
+			add("import samepkg" + u + ".*;")
+			add("import samepkg" + u + ".Covered" + u + ";")
+			body = append(body, "    private Covered"+u+" covered"+u+";")
+		case "used-single-then-wildcard-of-same-package":
+			add("import samepkg" + u + ".Covered" + u + ";")
+			add("import samepkg" + u + ".*;")
+			body = append(body, "    private Covered"+u+" covered"+u+";")
+		case "unused-single-after-wildcard-of-same-package":
+			add("import samepkg" + u + ".*;")
+			f.drop[add("import samepkg"+u+".NotUsed"+u+";")] = true
 		case "used-throws":
 			add("import lib.Oops" + u + ";")
 			throws = "Oops" + u
